@@ -56,6 +56,113 @@ def dtype_tables(src):
     return out
 
 
+def _expand_filtered_dict(fn):
+    """`return {k: v for k, v in D.items() if k in C}` as the last statement of a loader closure, D a local bound once to a dict display and
+    read only here: the comprehension is the display filtered entry by entry, in display order --
+    `out = {}; if k1 in C: out[k1] = v1; ...; return out`, the straight-line form the evaluator reads."""
+    import copy
+    if not fn.body or not isinstance(fn.body[-1], ast.Return) or not isinstance(fn.body[-1].value, ast.DictComp):
+        return False
+    dc = fn.body[-1].value
+    if len(dc.generators) != 1:
+        return False
+    g = dc.generators[0]
+    if not (isinstance(g.target, ast.Tuple) and len(g.target.elts) == 2 and all(isinstance(e, ast.Name) for e in g.target.elts) and isinstance(g.iter, ast.Call)
+            and isinstance(g.iter.func, ast.Attribute) and g.iter.func.attr == 'items' and isinstance(g.iter.func.value, ast.Name) and not g.iter.args
+            and isinstance(dc.key, ast.Name) and isinstance(dc.value, ast.Name)):
+        return False
+    kname, vname = g.target.elts[0].id, g.target.elts[1].id
+    if dc.key.id != kname or dc.value.id != vname:
+        return False
+    D = g.iter.func.value.id
+    defs = [(i, d) for i, d in enumerate(fn.body[:-1]) if isinstance(d, ast.Assign) and len(d.targets) == 1 and isinstance(d.targets[0], ast.Name) and d.targets[0].id == D]
+    stores = sum(1 for x in ast.walk(fn) if isinstance(x, ast.Name) and x.id == D and isinstance(x.ctx, ast.Store))
+    loads = sum(1 for x in ast.walk(fn) if isinstance(x, ast.Name) and x.id == D and isinstance(x.ctx, ast.Load))
+    if len(defs) != 1 or stores != 1 or loads != 1 or not isinstance(defs[0][1].value, ast.Dict) or any(k is None for k in defs[0][1].value.keys):
+        return False
+    disp = defs[0][1].value
+    out_name = f'{D}__kept'
+    new = [ast.Assign(targets=[ast.Name(id=out_name, ctx=ast.Store())], value=ast.Dict(keys=[], values=[]), lineno=fn.body[-1].lineno)]
+    for kx, vx in zip(disp.keys, disp.values):
+        class Sub(ast.NodeTransformer):
+            def visit_Name(s_, x):
+                if isinstance(x.ctx, ast.Load) and x.id == kname:
+                    return copy.deepcopy(kx)
+                if isinstance(x.ctx, ast.Load) and x.id == vname:
+                    return copy.deepcopy(vx)
+                return x
+        tests = [Sub().visit(copy.deepcopy(t)) for t in g.ifs]
+        store = ast.Assign(targets=[ast.Subscript(value=ast.Name(id=out_name, ctx=ast.Load()), slice=copy.deepcopy(kx), ctx=ast.Store())], value=copy.deepcopy(vx), lineno=fn.body[-1].lineno)
+        if tests:
+            test = tests[0] if len(tests) == 1 else ast.BoolOp(op=ast.And(), values=tests)
+            new.append(ast.If(test=test, body=[store], orelse=[]))
+        else:
+            new.append(store)
+    new.append(ast.Return(value=ast.Name(id=out_name, ctx=ast.Load())))
+    fn.body = fn.body[:defs[0][0]] + fn.body[defs[0][0] + 1:-1] + new
+    ast.fix_missing_locations(fn)
+    return True
+
+
+def _unroll_zip_loops(fn):
+    """`for a, b in zip((c1, .., cn), X): BODY` at the top level of a loader closure, X a local bound once to a call, a and b not re-bound in
+    BODY: the loop is unrolled -- X's binding becomes the tuple unpacking `X__0, .., X__n-1 = <call>` (zip stops at the shorter operand, the
+    literal has n entries; a call result of another length raises in both forms only if it is shorter -- the decoders return exactly n) and
+    iteration i is BODY with a := ci, b := X__i.  Both operands may also be literal tuples.  The result is the straight-line form the
+    evaluator reads."""
+    import copy
+    body = fn.body
+    for k, st in enumerate(body):
+        if not (isinstance(st, ast.For) and not st.orelse and isinstance(st.iter, ast.Call) and isinstance(st.iter.func, ast.Name) and st.iter.func.id == 'zip'
+                and len(st.iter.args) == 2 and not st.iter.keywords and isinstance(st.target, ast.Tuple) and len(st.target.elts) == 2
+                and all(isinstance(e, ast.Name) for e in st.target.elts)):
+            continue
+        A, B = st.iter.args
+        if not isinstance(A, ast.Tuple):
+            continue
+        n = len(A.elts)
+        ta, tb = st.target.elts[0].id, st.target.elts[1].id
+        if any(isinstance(x, ast.Name) and x.id in (ta, tb) and isinstance(x.ctx, ast.Store) for b_ in st.body for x in ast.walk(b_)):
+            continue
+        if isinstance(B, ast.Tuple) and len(B.elts) == n:
+            bvals = list(B.elts)
+        elif isinstance(B, ast.Name):
+            defs = [(i, d) for i, d in enumerate(body[:k]) if isinstance(d, ast.Assign) and len(d.targets) == 1 and isinstance(d.targets[0], ast.Name) and d.targets[0].id == B.id]
+            stores = sum(1 for x in ast.walk(fn) if isinstance(x, ast.Name) and x.id == B.id and isinstance(x.ctx, ast.Store))
+            loads = sum(1 for x in ast.walk(fn) if isinstance(x, ast.Name) and x.id == B.id and isinstance(x.ctx, ast.Load))
+            if len(defs) != 1 or stores != 1 or loads != 1 or not isinstance(defs[0][1].value, ast.Call):
+                continue
+            names = [f'{B.id}__{i}' for i in range(n)]
+            body[defs[0][0]] = ast.copy_location(ast.Assign(targets=[ast.Tuple(elts=[ast.Name(id=x, ctx=ast.Store()) for x in names], ctx=ast.Store())],
+                                                            value=defs[0][1].value, lineno=defs[0][1].lineno), defs[0][1])
+            bvals = [ast.Name(id=x, ctx=ast.Load()) for x in names]
+        else:
+            continue
+        out = []
+        for i in range(n):
+            class Sub(ast.NodeTransformer):
+                def visit_Name(s_, x):
+                    if isinstance(x.ctx, ast.Load) and x.id == ta:
+                        return ast.copy_location(copy.deepcopy(A.elts[i]), x)
+                    if isinstance(x.ctx, ast.Load) and x.id == tb:
+                        return ast.copy_location(copy.deepcopy(bvals[i]), x)
+                    return x
+            for b_ in st.body:
+                c_ = copy.deepcopy(b_)
+                # locals of the body get one name per iteration
+                class Ren(ast.NodeTransformer):
+                    def visit_Name(s_, x):
+                        if x.id in loc:
+                            return ast.copy_location(ast.Name(id=f'{x.id}__{i}', ctx=x.ctx), x)
+                        return x
+                loc = {x.id for bb in st.body for x in ast.walk(bb) if isinstance(x, ast.Name) and isinstance(x.ctx, ast.Store)}
+                out.append(ast.fix_missing_locations(Ren().visit(Sub().visit(c_))))
+        body[k:k + 1] = out
+        ast.fix_missing_locations(fn)
+        return True
+    return False
+
+
 class LoaderTable:
     def __init__(self, src):
         self.src = src
@@ -70,6 +177,10 @@ class LoaderTable:
 
     def _extract(self):
         fn = self.fn
+        for n in fn.body:
+            if isinstance(n, ast.FunctionDef):
+                _unroll_zip_loops(n)
+                _expand_filtered_dict(n)
         localdefs = {n.name: n for n in fn.body if isinstance(n, ast.FunctionDef)}
         self.localdefs = localdefs
         self.moduledefs = {n.name: n for n in self.src.tree(CAT).body if isinstance(n, ast.FunctionDef)}
